@@ -33,8 +33,10 @@ THEOREMS = {
             "Obligations.backendA_C08_structure", "Obligations.C08_extracted", "Obligations.C08_removed_extracted",
             "Obligations.C08_witnesses_extracted"],
 }
-MODULES = {"C03": ["QuillModel.Props.C03"], "C10": ["QuillModel.Props.C10", "QuillModel.Obligations.CodecStore"], "C08": ["QuillModel.Props.C08"]}
+MODULES = {"C03": ["QuillModel.Props.C03"], "C10": ["QuillModel.Props.C10", "QuillModel.Obligations.CodecStore", "QuillModel.Obligations.JsonSinkFaults"], "C08": ["QuillModel.Props.C08"]}
 # C10 also rests on the codec fact that every statement is decoded into an EMPTY argument store (an unformattable statement is
 # reported instead of borrowing another statement's arguments): theorem + extraction obligation of the codec bundle
-THEOREMS["C10"] = THEOREMS["C10"] + ["Codec.C04_store_per_statement", "Obligations.codec_store_reset", "Obligations.C04_store_extracted"]
+THEOREMS["C10"] = THEOREMS["C10"] + ["Codec.C04_store_per_statement", "Obligations.codec_store_reset", "Obligations.C04_store_extracted",
+                                       # and the one concrete sink with a buffer across statements (JSON sink): reset before the throwing customisation point
+                                       "Named.C19_json_faults_leave_nothing", "Obligations.json_sink_clear_before_generate", "Obligations.C10_json_sink_faults_extracted"]
 OBLIG = ["QuillModel.Obligations.BackendA"]
